@@ -500,6 +500,12 @@ def check_rewrite_allowed(rule, a, b):
         # for PAT in EXPR {   ->  let mut IT = EXPR ; loop { match IT.next() { None => break, Some(PAT) => {
         # (checked structurally by the driver's rule table; accepted only for the listed site)
         return
+    if rule == "R13":
+        # non-short-circuit `&` between two pure boolean comparisons -> `&&` (Verus rejects `&` on bools)
+        if len(ta) == len(tb) and sum(1 for x, y in zip(ta, tb) if x != y) == 1 and all(x == y or (x == "&" and y == "&&") for x, y in zip(ta, tb)) \
+                and all(re.match(r"^[A-Za-z_][A-Za-z0-9_]*$", x) or x in ("(", ")", "!=", "==", "&") for x in ta):
+            return
+        raise ExtractError("rewrite R13 must change exactly one `&` between pure comparisons into `&&`: %s" % a)
     if rule == "R9":
         # inherent-impl form of an external-trait impl: `Self::Item` is replaced by the impl's `type Item`
         if ta != ["Self", "::", "Item"]:
@@ -1239,6 +1245,7 @@ def build(repo, spec_paths, prelude_paths, out_path, cover=False):
     g.emit("#![allow(unused_imports, unused_variables, dead_code, unused_mut, unused_parens, non_snake_case, unused_braces)]", ("glue",))
     g.emit("use vstd::prelude::*;", ("glue",))
     g.emit("verus! {", ("glue",))
+    g.emit("global size_of usize == 8;   // A5: 64-bit target", ("glue",))
     for p in prelude_paths:
         g.emit("// ---- prelude %s (hand-written, trusted vocabulary) ----" % os.path.basename(p), ("glue",))
         for l in open(p).read().split("\n"):
